@@ -85,7 +85,7 @@ def _strip_pauses(td):
 def generate(r, tier):
     if r.random() < 0.12:
         return _gen_placement(r)
-    aworld = gen.gen_world(r, True, nfuncs=(1, 3), with_class=0.6, forms=True, async_methods=True, mixed=False)
+    aworld = gen.gen_world(r, True, nfuncs=(1, 3), with_class=0.6, forms=True, async_methods=True, mixed=False, subclass=0.35)
     units = gen.units_of(aworld)
     profile = {
         "p_falsy": r.choice([0.3, 0.5, 0.7]),
@@ -235,7 +235,7 @@ def execute(scn):
         if o["actor"] != "a":
             continue
         shapes.add(common.h64(("method" if o["obj"] else "func", roles, styles, o["verdict"][0], o["verdict"][1], suspended)))
-    stats = {"events": len(srun.log) + len(arun.log), "vtime": vt, "suspensions": arun.suspensions, "faults": dict(arun.faults_fired), "switch_sig": common.h64(common.switch_signature(arun.log))}
+    stats = {"state_sigs": [common.h64(x) for x in arun.states], "events": len(srun.log) + len(arun.log), "vtime": vt, "suspensions": arun.suspensions, "faults": dict(arun.faults_fired), "switch_sig": common.h64(common.switch_signature(arun.log))}
     return {"violations": violations, "digest": arun.digest() + srun.digest(), "nontrivial": shapes if suspended else set(), "stats": stats}
 
 
